@@ -486,4 +486,71 @@ theorem obs_concatBonds (root : Nat) (ss : List MolO)
       rw [this]
       simp [copyAtoms_length]
 
+/-! ### sources whose atoms and bonds have no live owner
+
+`atom.parent` is a weak reference: the atoms of a source may name nobody (or a dead object).  The copy routes never read the
+parent of a source atom, so they give the same result as on the source with all parents set (`reparent`). -/
+
+def ownAtom (p : Nat) (a : AtomO) : AtomO := { a with parent := some p }
+def ownBond (p : Nat) (b : BondO) : BondO := { b with parent := some p }
+
+/-- the source as it would be if its atoms and bonds named it as parent -/
+def reparent (o : MolO) : MolO :=
+  { o with atoms := o.atoms.map (ownAtom o.id), bonds := o.bonds.map (ownBond o.id) }
+
+theorem ids_ownAtoms (p : Nat) (l : List AtomO) : (l.map (ownAtom p)).map (·.id) = l.map (·.id) := by
+  simp [ownAtom, List.map_map, Function.comp_def]
+
+theorem atomsSize_own (p : Nat) (l : List AtomO) : atomsSize (l.map (ownAtom p)) = atomsSize l := by
+  simp only [atomsSize, List.map_map]
+  congr 1
+
+theorem bondsSize_own (p : Nat) (l : List BondO) : bondsSize (l.map (ownBond p)) = bondsSize l := by
+  simp only [bondsSize, List.map_map]
+  congr 1
+
+theorem copyAtoms_own (fl : Flags) (root p : Nat) (l : List AtomO) : ∀ k,
+    copyAtoms fl root k (l.map (ownAtom p)) = copyAtoms fl root k l := by
+  induction l with
+  | nil => intro k; rfl
+  | cons a l ih => intro k; simp [copyAtoms, ih, copyAtom, ownAtom, AtomO.size]
+
+theorem copyBonds_own (fl : Flags) (root p : Nat) (old new : List Nat) (l : List BondO) : ∀ k,
+    copyBonds fl root old new k (l.map (ownBond p)) = copyBonds fl root old new k l := by
+  induction l with
+  | nil => intro k; rfl
+  | cons b l ih => intro k; simp [copyBonds, ih, copyBond, ownBond, BondO.size]
+
+theorem deepCopy_reparent (fl : Flags) (n : Nat) (src : MolO) : deepCopy fl n (reparent src) = deepCopy fl n src := by
+  simp only [deepCopy, reparent, ids_ownAtoms, atomsSize_own, bondsSize_own, copyAtoms_own, copyBonds_own]
+
+theorem concatAtoms_reparent (fl : Flags) (root : Nat) (ss : List MolO) : ∀ k,
+    concatAtoms fl root k (ss.map reparent) = concatAtoms fl root k ss := by
+  induction ss with
+  | nil => intro k; rfl
+  | cons s ss ih => intro k; simp [concatAtoms, reparent, copyAtoms_own, atomsSize_own, ih]
+
+theorem concatBonds_reparent (fl : Flags) (root : Nat) (ss : List MolO) : ∀ ka kb,
+    concatBonds fl root ka kb (ss.map reparent) = concatBonds fl root ka kb ss := by
+  induction ss with
+  | nil => intro ka kb; rfl
+  | cons s ss ih =>
+    intro ka kb
+    have hid : (s.atoms.map (ownAtom s.id)).map (·.id) = s.atoms.map (·.id) := ids_ownAtoms _ _
+    simp only [List.map_cons, concatBonds, reparent, copyAtoms_own, copyBonds_own, atomsSize_own, bondsSize_own, hid, ih]
+
+theorem concatN_reparent (fl : Flags) (n cls : Nat) (ss : List MolO) :
+    concatN fl n cls (ss.map reparent) = concatN fl n cls ss := by
+  have h1 : totalAtomsSize (ss.map reparent) = totalAtomsSize ss := by
+    simp [totalAtomsSize, reparent, atomsSize_own, List.map_map, Function.comp_def]
+  have h2 : totalBondsSize (ss.map reparent) = totalBondsSize ss := by
+    simp [totalBondsSize, reparent, bondsSize_own, List.map_map, Function.comp_def]
+  have h3 : commonSlots (ss.map reparent) = commonSlots ss := by
+    simp [commonSlots, reparent, List.map_map, Function.comp_def]
+  have h4 : ∀ j, stackData (ss.map reparent) j = stackData ss j := by
+    intro j; simp [stackData, reparent, List.flatMap_map]
+  have h5 : ∀ i, (ss.map reparent).map (fun s => scalarAt s i) = ss.map (fun s => scalarAt s i) := by
+    intro i; simp [scalarAt, reparent, List.map_map, Function.comp_def]
+  simp only [concatN, h1, h2, h3, h4, h5, concatAtoms_reparent, concatBonds_reparent]
+
 end Molli.Lemmas.Heap
